@@ -68,7 +68,11 @@ Definition time_after (t u : Z) : bool := u <? t.                      (* t.Afte
 Definition time_before (t u : Z) : bool := t <? u.                     (* t.Before(u) *)
 Definition time_to_unix (t : Z) : Z := t / ns_per_sec.                 (* t.Unix(): whole seconds, floor *)
 Definition time_to_unixnano (t : Z) : Z := t.                          (* t.UnixNano() *)
-Definition time_is_zero (t : Z) : bool := t =? -62135596800 * ns_per_sec.  (* t.IsZero(): year 1 *)
+(* the zero time.Time: January 1, year 1, 00:00 UTC *)
+Definition time_zero : Z := -62135596800 * ns_per_sec.
+Definition time_is_zero (t : Z) : bool := t =? time_zero.               (* t.IsZero() *)
+(* clock.Since(t) with the clock read as [now] (no saturation at the maximal Duration) *)
+Definition clock_since (t now : Z) : Z := now - t.
 
 (* t.Day() for an instant read in UTC (days-to-civil, proleptic Gregorian) *)
 Definition time_day (t : Z) : Z :=
@@ -88,11 +92,15 @@ Inductive goval :=
 | VNil                              (* nil interface *)
 | VInt64 (z : Z)
 | VStrs (l : list gostring)         (* []string *)
-| VOther (tag : Z).                 (* anything else (opaque) *)
+| VOther (tag : Z)                  (* anything else (opaque) *)
+| VInt (z : Z).                     (* Go int (a dynamic type different from int64) *)
 
 (* v, ok := x.(int64) *)
 Definition as_int64 (v : goval) : Z * bool :=
   match v with VInt64 z => (z, true) | _ => (0, false) end.
+(* x.(int): [is_int] is the panic guard of the single-value form *)
+Definition is_int (v : goval) : bool := match v with VInt _ => true | _ => false end.
+Definition int_of (v : goval) : Z := match v with VInt z => z | _ => 0 end.
 (* x.([]string): [is_strs] is the panic guard of the single-value form *)
 Definition is_strs (v : goval) : bool := match v with VStrs _ => true | _ => false end.
 Definition strs_of (v : goval) : list gostring := match v with VStrs l => l | _ => [] end.
@@ -165,6 +173,13 @@ Definition ctx_get (c : ctxmem) (k : gostring) : goval * goerror :=
 Definition ctx_exists (c : ctxmem) (k : gostring) : bool :=
   match smap_get c k with Some _ => true | None => false end.
 
+(* c.Pop(key): removes and returns the value *)
+Definition ctx_pop (c : ctxmem) (k : gostring) : ctxmem * goval * goerror :=
+  match smap_get c k with
+  | Some v => (smap_delete c k, v, ErrNil)
+  | None => (c, VNil, Err err_not_found)
+  end.
+
 Definition err_cast : gostring :=               (* "failed to cast value to type %T" *)
   [102;97;105;108;101;100;32;116;111;32;99;97;115;116;32;118;97;108;117;101;32;116;111;32;116;121;112;101;32;37;84].
 
@@ -185,7 +200,16 @@ Definition ctx_get_int64 (c : ctxmem) (k : gostring) : Z * goerror :=
 (* what the translated quota code observes of an APIStream: its request id
    (GetID()) and what the quota's extractCountF yields for it (1 for a
    request-counting quota, the value at counter_value_path otherwise) *)
-Record apistream := mk_apistream { as_id : gostring; as_count : Z * goerror }.
+(* ... its sequence id (GetSequenceID()) and the per-transaction flow context
+   (GetContext().GetFlowContext(), a contextMemory) *)
+Record apistream := mk_apistream {
+  as_id : gostring;
+  as_count : Z * goerror;
+  as_seq : gostring;
+  as_flow : ctxmem
+}.
+Definition set_as_flow (c : ctxmem) (a : apistream) : apistream :=
+  mk_apistream (as_id a) (as_count a) (as_seq a) c.
 
 (* ------------------------------------------------------------------ slices *)
 
